@@ -513,7 +513,15 @@ def struct_rules(run, db):
     mod_ = fw.module
     owners = [fw] + [g for g in mod_.functions.values() if g.name in reachable_calls(db, fw)]
     bufs = [n for g in owners for n in walk_no_nested(g.node) if isinstance(n, ast.Call) and ast.unparse(n.func).endswith('create_string_buffer')]
-    run.check(len(bufs) == 1 and ast.unparse(bufs[0].args[0]) == '834', 'C14.struct', fw.qual, 'buffer size', 'header buffer is 834 bytes', 'header buffer size changed', fw.loc())
+    if len(bufs) != 1 or not bufs[0].args:
+        raise AnalysisError('write_zygo_dat: the allocation of the header buffer (one create_string_buffer call) is not found')
+    from ..core.interp import Interp as _Interp, Domain as _Domain, Frame as _Frame
+    _it = _Interp(db, _Domain())
+    _it._reset_run([])
+    size_v = _it.ev(bufs[0].args[0], _Frame(None, mod_, {}))           # a literal or a module-level constant
+    if not (isinstance(size_v, Const) and isinstance(size_v.v, int)):
+        raise AnalysisError('write_zygo_dat: the size of the header buffer (%s) is not a constant this rule follows' % ast.unparse(bufs[0].args[0]))
+    run.check(size_v.v == 834, 'C14.struct', fw.qual, 'buffer size', 'header buffer is 834 bytes', 'the header buffer is %d bytes, the format has an 834-byte header' % size_v.v, fw.loc())
 
 
 def _field_sources(fi, e, depth=0):
